@@ -36,9 +36,9 @@ func VerifC25_ackrange_step() {
 		sent.num = S + packetNumber(i)
 		sent.size = 1200
 		sent.time = c25now(1)
-		if vfTier() > 0 {
+		if vfTier() > 0 && n <= 2 {
 			sent.state = sentPacketState(vfChoice("state", 4))
-		} else { // quick: Lost entries behave exactly like Acked ones in receiveAckRange (state != Sent)
+		} else { // Lost entries behave exactly like Acked ones in receiveAckRange (state != Sent): only for short lists in thorough
 			sent.state = [3]sentPacketState{sentPacketSent, sentPacketAcked, sentPacketUnsent}[vfChoice("state", 3)]
 		}
 		if sent.state != sentPacketUnsent {
